@@ -291,7 +291,7 @@ CHECKS = [
              'grid of peer-announced window x maximum packet size x quirk '
              'version x compression followed by writes (non-progressing send '
              'loops); hostile SCP conversations against the four asyncssh SCP '
-             'roles; random and mutated valid inputs to 13 decoders (any '
+             'roles; random and mutated valid inputs to 14 decoders (any '
              'exception class other than the documented one is a violation). '
              'Oracle: '
              'no exception escapes data_received, output and loop steps per '
